@@ -664,6 +664,9 @@ pub struct PersistCall {
 pub struct DiskState {
 	pub chans: BTreeMap<[u8; 32], ChanDisk>,
 	pub manager: Option<Vec<u8>>,
+	/// terminal payment events (payment id, is PaymentSent) that were still queued, unhandled, in
+	/// the manager snapshot above (hook H6)
+	pub manager_pending_terminal: Vec<([u8; 32], bool)>,
 	pub manager_generation: u64,
 	/// generation of the manager snapshot the current incarnation was loaded from
 	pub loaded_generation: u64,
